@@ -103,6 +103,7 @@ def run(ctx):
     if ok or idx != 1:
         raise tlc.MachineryError("binding self-test failed: swapped individuals accepted")
     ctx.log("self-test: record with swapped individual order rejected (as required)")
+    run_container(ctx, tmp)
     ctx.exhaustive = False   # the enumerated small tables are complete, larger tables and the joint family are sampled
 
 
@@ -164,6 +165,38 @@ def run_layouts(ctx, tmp, rnd):
                 raise tlc.MachineryError(f"vacuity: {layout}/{cfg} has {n_ok} accepted tables of {len(recs)}")
             if not family31 and n_ok:
                 ctx.sample(next(r for r in recs if r["status"] == "ok" and len(r["table"]) >= 2))
+
+
+CFG_DC = """SPECIFICATION TSpec
+CONSTANTS
+  Base <- MCBase
+  Ops <- MCOps
+  MaxLen = 2
+INVARIANT Conforms
+INVARIANT Covered
+"""
+
+
+def run_container(ctx, tmp):
+    """Beyond the listed property (conformance notes, never part of the verdict): the Data container as an ordered collection
+    (DataContainer.tla) - every chain of two selections enumerated by TLC performed on a real Data object."""
+    from ..drivers import datacontainer as dc
+    res, cs = cases.enumerate_cases("MC_DataContainer", "MC_DataContainer.cfg", tmp, "dc")
+    ctx.add_tlc("DataContainer: chains of <= 2 selections (design)", res)
+    if res.violated:
+        ctx.violation({"check": "design", "invariant": res.violated[0]}, f"DataContainer.tla violates {res.violated}", replay=res.trace_text[:3000])
+    recs = [dc.run_case(c) for c in cs]
+    ok, idx, r2 = cases.validate_records("DataContainerTrace", CFG_DC, recs, tmp, "dc_conf", env={"EXPECT_COUNT": str(len(cs))})
+    ctx.traces += len(recs)
+    ctx.states += r2.distinct
+    ctx.transitions += r2.generated
+    note = None
+    if not ok:
+        bad = recs[idx] if idx is not None else None
+        note = f"Data container differs from DataContainer.tla on {bad}"
+    ctx.extra["container_notes"] = {"chains": len(recs), "conform": bool(ok), "example": note}
+    ctx.log(f"notes (not part of the verdict): DataContainer.tla, {len(recs)} chains of selections on a real Data object -> "
+            f"{'all conform' if ok else note[:400]}")
 
 
 def replay(ctx, path):
